@@ -13,7 +13,7 @@ EPS = sys.float_info.epsilon
 
 def cfg_desc(cfg):
     keys = ('expl', 'dynamic', 'alpha', 'n_inner', 'd', 'storage', 'imputer', 'names', 'lbib', 'model',
-            'loss', 'ignored')
+            'loss', 'ignored', 'oscale')
     return ', '.join(f"{k}={cfg[k]}" for k in keys if k in cfg)
 
 
@@ -126,6 +126,7 @@ class SageRef:
             if not dict_eq(x_copy, x):
                 self.bad('x-passed', f"imputer received x_i={x_copy}, expected {x}", t)
             for inp in inputs:
+                check_input_shape(self, inp, x, subset, t, f"chain step {s + 1}")
                 for n in names:
                     if n not in subset and not (inp[n] == x[n]):
                         self.bad('revealed-feature-imputed', f"chain step {s + 1}: model input {inp} differs from "
@@ -169,6 +170,21 @@ class SageRef:
         return contrib
 
 
+def check_input_shape(ref, inp, x, subset, t, where):
+    """A model input built for explaining x must be x with the features of `subset` replaced: the same keys in the same
+    order (positional models - ixai's own wrappers without feature names - depend on the order) and every key outside the
+    subset (explained feature or not) with x's own value."""
+    if list(inp) != list(x):
+        ref.bad('model-input-shape', f"{where}: the model was evaluated on an input with keys {list(inp)} but the explained "
+                                     f"instance has keys {list(x)} (an imputed instance agrees with the explained instance "
+                                     f"on everything outside the imputed subset, including keys that are not explained "
+                                     f"features and the key order)", t)
+    for k in x:
+        if k not in subset and not (inp[k] == x[k]):
+            ref.bad('model-input-shape', f"{where}: model input {inp} differs from the explained instance {x} in {k!r}, "
+                                         f"which is not in the imputed subset {sorted(subset, key=repr)}", t)
+
+
 def close(got, want, k=4):
     """Public float vs exact rational: equal within k ulp of max(1, |want|) (Fractions compare exactly)."""
     if isinstance(got, F) or isinstance(got, int):
@@ -209,6 +225,19 @@ def CURRENT_PID():
     return choice.CURRENT_PID[0]
 
 
+def shaped(x, shape, t):
+    """Observation dicts of one stream need not be uniform: shape 1 = the same keys in reversed insertion order (the test
+    model then reads by position, as ixai's own wrappers do without feature names), shape 2 = an optional context key
+    that is not an explained feature and that the model reads with a default. Model inputs built by the library must keep
+    the explained instance's key order and context - never those of a background row."""
+    if shape == 1:
+        return dict(reversed(list(x.items())))
+    if shape == 2:
+        from ixverif.spies import Model
+        return {**x, Model.CTX: F(7 + t)}
+    return x
+
+
 def stream_driver(cfg, T, make_oracle, alpha_size=3, options=False):
     """driver(run): every word of length T over the observation alphabet (driver choices, cost 0);
     optional per-call options as deviations (cost 1)."""
@@ -225,9 +254,12 @@ def stream_driver(cfg, T, make_oracle, alpha_size=3, options=False):
             xp, yp = letters[-1]
             h.expl.update_storage(dict(xp), yp)
             h.prefilled = True
+        if options and cfg.get('ignored') is None:
+            h.model.positional = True       # identical to by-name reading unless an input changes its key order
         for t in range(T):
             i = run.choose(len(letters), 'obs', None, 0)
             x, y = letters[i]
+            x = shaped(x, run.choose(3, 'shape', None, 1) if options else 0, t)
             kw = {}
             n_exp = cfg['n_inner']
             # per-call options from the 2nd call on; with an imputer that does not read the explainer's storage
